@@ -177,27 +177,33 @@ func features() sqlgen.Features {
 
 func TestExtractionExact(t *testing.T) {
 	hx.Rule("extraction_exact", "G-SQL statements for which the generator recorded every table written in a table position, every column reference (incl. INSERT/SET/USING/ON CONFLICT columns) and every function call; the five extractors (and ExtractMetadata) must return exactly those sets, duplicate-free, with qualifiers in the qualified variants, and the same sets for a hostile re-layout; names in unclassified positions (CTE column lists, FOR UPDATE OF) may or may not appear; non-trivial = a name inside a nested query or in a non-FROM table position; distinct = kind + feature set")
-	extractCheck.Rapid(t, hx.N(100000, 1000000), func(rt *rapid.T) ExtractCase {
-		g := sqlgen.New(rt, features())
-		st := sqlgen.Statement(g)
-		c := ExtractCase{SQL: sqlgen.SQL(st.Toks), Tables: mk(st.Names.Tables), Cols: mk(st.Names.Columns), Funcs: mk(st.Names.Functions),
-			MaybeT: mk(st.Names.MaybeTables), MaybeC: mk(st.Names.MaybeColumns), Alias: mk(st.Names.Aliases), Strs: mk(st.Names.Strings)}
-		if rapid.IntRange(0, 3).Draw(rt, "relayout") == 0 {
-			lx := sqlgen.Lexemes(st.Toks)
-			f := lexgen.Features{StringStartsWithDoubledQuote: true, TrailingComment: true, Comments: true}
-			c.Laid = lexgen.Render(lexgen.Recase(rt, lx), lexgen.GenSeps(rt, f, lx, "l")).Src
-		}
-		nested := st.Stats["scalar_subquery"]+st.Stats["in_subquery"]+st.Stats["exists"]+st.Stats["not_exists"]+st.Stats["derived_table"]+st.Stats["with"]+st.Stats["quantified"]+st.Stats["join_derived"] > 0
-		nonFrom := st.Kind != "query" || st.Stats["join"] > 0
-		var cl []string
-		for k := range st.Stats {
-			cl = append(cl, k)
-		}
-		sort.Strings(cl)
-		hx.Case("extraction_exact", nested || nonFrom, st.Kind+"|"+strings.Join(cl, ","), "kind_"+st.Kind)
-		hx.Sample("extraction_exact", c.SQL)
-		return c
-	})
+	extractCheck.Rapid(t, hx.N(100000, 1000000), genExtractionExact)
 }
 
 func mk(m map[string]bool) []string { return keys(m) }
+
+// genExtractionExact is the case generator of extractCheck (shared by the rapid run and the native fuzz target).
+func genExtractionExact(rt *rapid.T) ExtractCase {
+	g := sqlgen.New(rt, features())
+	st := sqlgen.Statement(g)
+	c := ExtractCase{SQL: sqlgen.SQL(st.Toks), Tables: mk(st.Names.Tables), Cols: mk(st.Names.Columns), Funcs: mk(st.Names.Functions),
+		MaybeT: mk(st.Names.MaybeTables), MaybeC: mk(st.Names.MaybeColumns), Alias: mk(st.Names.Aliases), Strs: mk(st.Names.Strings)}
+	if rapid.IntRange(0, 3).Draw(rt, "relayout") == 0 {
+		lx := sqlgen.Lexemes(st.Toks)
+		f := lexgen.Features{StringStartsWithDoubledQuote: true, TrailingComment: true, Comments: true}
+		c.Laid = lexgen.Render(lexgen.Recase(rt, lx), lexgen.GenSeps(rt, f, lx, "l")).Src
+	}
+	nested := st.Stats["scalar_subquery"]+st.Stats["in_subquery"]+st.Stats["exists"]+st.Stats["not_exists"]+st.Stats["derived_table"]+st.Stats["with"]+st.Stats["quantified"]+st.Stats["join_derived"] > 0
+	nonFrom := st.Kind != "query" || st.Stats["join"] > 0
+	var cl []string
+	for k := range st.Stats {
+		cl = append(cl, k)
+	}
+	sort.Strings(cl)
+	hx.Case("extraction_exact", nested || nonFrom, st.Kind+"|"+strings.Join(cl, ","), "kind_"+st.Kind)
+	hx.Sample("extraction_exact", c.SQL)
+	return c
+}
+
+// FuzzExtractionExact: coverage-guided search over the same generator (thorough tier).
+func FuzzExtractionExact(f *testing.F) { extractCheck.Fuzz(f, genExtractionExact) }
